@@ -1,12 +1,13 @@
 (** Proofs about Fields.v: the WarcFields methods refine the reference multimap (C18). *)
-Require Import Model.Bytes Model.FieldDef Gen.FieldTable Model.Fields Proofs.BytesProofs.
+Require Import Model.Bytes Model.FieldDef Model.Fields Proofs.BytesProofs.
 From Coq Require Import Lia Sorted.
 Local Open Scope N_scope.
 
 Section Proofs.
+Variable tbl : list fielddef.
 Variable uni_lower : bytes -> bytes.
-Notation normalize_name := (normalize_name uni_lower).
-Notation key := (key uni_lower).
+Notation normalize_name := (normalize_name tbl uni_lower).
+Notation key := (key tbl uni_lower).
 
 (** ** getters *)
 Lemma m_getall_loop_spec k l : m_getall_loop k l = s_values k l.
@@ -21,7 +22,7 @@ Proof.
   unfold name_is at 1. destruct (bytes_eqb (fst p) k); cbn; [reflexivity|exact IH].
 Qed.
 
-Lemma m_get_spec n l : m_get uni_lower n l = s_get (key n) l.
+Lemma m_get_spec n l : m_get tbl uni_lower n l = s_get (key n) l.
 Proof.
   unfold m_get, s_get, s_values, key. induction l as [|p t IH]; cbn; [reflexivity|].
   destruct (name_is (normalize_name n) p); cbn; [reflexivity|exact IH].
@@ -51,7 +52,7 @@ Proof.
   - rewrite IH. destruct (s_set_first k v t); reflexivity.
 Qed.
 
-Lemma m_set_spec n v l : m_set uni_lower n v l = s_set (key n) v l.
+Lemma m_set_spec n v l : m_set tbl uni_lower n v l = s_set (key n) v l.
 Proof.
   unfold m_set, s_set, key, s_add. rewrite m_set_loop_false.
   destruct (s_set_first (normalize_name n) v l); reflexivity.
@@ -64,7 +65,7 @@ Proof.
 Qed.
 
 (** ** one step, and whole histories *)
-Lemma fstep_spec l o : fstep uni_lower l o = sstep uni_lower l o.
+Lemma fstep_spec l o : fstep tbl uni_lower l o = sstep tbl uni_lower l o.
 Proof.
   destruct o as [n v|n z|n v|n s|n v|n z|n v|n s|n| |n|n|n|n|n| ]; cbn [fstep sstep]; unfold m_getint; unfold m_add, s_add, m_getall, m_has, m_delete, m_sort, s_sort;
     rewrite ?m_set_spec, ?m_get_spec, ?m_getall_loop_spec, ?m_has_loop_spec, ?m_delete_loop_spec, ?m_write_spec;
@@ -72,10 +73,10 @@ Proof.
   match goal with |- context [id_value ?v] => destruct (id_value v) end; rewrite ?m_set_spec; reflexivity.
 Qed.
 
-Theorem fields_refine ops : forall l, frun uni_lower l ops = srun uni_lower l ops.
+Theorem fields_refine ops : forall l, frun tbl uni_lower l ops = srun tbl uni_lower l ops.
 Proof.
   induction ops as [|o t IH]; intros l; cbn [frun srun]; [reflexivity|].
-  rewrite fstep_spec. destruct (sstep uni_lower l o) as [l' ob]. rewrite IH. reflexivity.
+  rewrite fstep_spec. destruct (sstep tbl uni_lower l o) as [l' ob]. rewrite IH. reflexivity.
 Qed.
 
 (** ** what the reference multimap guarantees *)
